@@ -28,6 +28,8 @@ func init() {
 			{From: "C06.d", Match: "ensure-init", As: "C04.f", Why: "Tail ≤ Head needs both pointers set whenever the store is non-empty, also after a reopen with one pointer absent"},
 			{From: "C08.d", As: "C04.g", Why: "after DeleteRange the pointers must bound exactly the heights still stored: they move only with the deletion progress"},
 			{From: "C08.b", As: "C04.g", Why: "Has/HasAt/Get/GetByHeight agree after a deletion only if every tier (pending, caches, index, datastore) is purged"},
+			{From: "C14.b", Match: "removal-after-all-handlers", As: "C04.g", Why: "a cache purged before the OnDelete handlers ran is re-populated by a handler that reads the header, and then serves it after the deletion"},
+			{From: "C17.e", Match: "pointer-move-unconditional", As: "C04.c", Why: "Head is the top of the contiguous run only if every append round re-evaluates it, whatever range was appended"},
 		},
 	})
 }
